@@ -178,6 +178,7 @@ const preludeSMT = `(set-option :produce-models true)
 (declare-fun rootid (Ref) Int)
 (assert (= (rootid nil) 0))
 (declare-fun dyntype (Ref) Int)
+(declare-fun ptag (Ref) Int)
 (declare-fun unboxRef (Ref) Ref)
 (declare-fun unboxInt (Ref) Int)
 (declare-fun maplen (Ref) Int)
